@@ -659,6 +659,8 @@ def oracle_c10(tr: Trace, report, steps=None):
             missing = arg.species_members is None or arg.species_membership is None or arg.species_representatives is None
             if k == "selection" and missing and type(s.exc).__name__ == "EVQESelectionException":
                 continue  # documented precondition
+            if k == "selection" and len(arg.individuals) == 0 and type(s.exc).__name__ == "ValueError":
+                continue  # empty population (stated assumption: non-empty populations): argmin of nothing; model and code are compared
             report(f"exception-{k}-{type(s.exc).__name__}", f"{k} raised {type(s.exc).__name__}: {s.exc} on a valid population", si)
             continue
         out = s.out
@@ -1197,6 +1199,15 @@ def persistent_specs(rng, count):
         out.append({"n": n, "inds": inds, "reps": None, "steps": steps, "workers": rng.randint(1, 4), "order": [rng.randint(0, 7) for _ in range(24)],
                     "positive": rng.random() < 0.5, "evalmode": rng.choice(["hash", "hash", "coarse"])})
     return out
+
+
+def empty_population_specs():
+    """An EMPTY population (population_size=0 is accepted by the configuration): speciation and the mutation operators
+    return it, selection raises ValueError (argmin of an empty list) after reporting 0 evaluations.  Outside the claim
+    (C10_completes assumes a non-empty population); exercised so that model and code are seen to agree on it."""
+    base = {"n": 2, "inds": [], "reps": None, "workers": 1, "order": [0], "positive": False, "evalmode": "hash"}
+    return [dict(base, steps=[{"op": "topo", "p": 1.0, "seed": 1}, {"op": "removal", "p": 0.5, "seed": 2}, {"op": "speciation", "thr": 2, "seed": 3},
+                              {"op": "selection", "alpha": 0.125, "beta": 0.25, "tournament": t, "seed": 4}]) for t in (None, 2)]
 
 
 def precondition_specs(rng, count):
